@@ -172,3 +172,35 @@ Proof.
   apply andb_true_iff in H. destruct H as [Hm Ha].
   apply String.eqb_eq in Hm. apply Bool.eqb_prop in Ha. now subst.
 Qed.
+
+(* --- value plumbing (finite facts over the generated tables) ------------------ *)
+From Coq Require Import String.
+From YV Require Import Capi.Values.
+
+Lemma values_table_ok_now : values_table_ok = true.
+Proof. vm_compute. reflexivity. Qed.
+
+Lemma values_parts :
+  out_params_ok = true /\ structs_ok = true /\ buffers_ok = true /\ loops_ok = true /\
+  c_strings_ok = true /\ meta_ok = true /\ setters_ok = true.
+Proof. repeat split; vm_compute; reflexivity. Qed.
+
+(* a match handed to the callback carries the start and the length of the match's range *)
+Lemma match_fields_lemma : forall f e,
+  In ("yrx_pattern_iter_matches", "YRX_MATCH", f, e)%string struct_fields ->
+  (f = "offset" /\ e = "m.range().start")%string \/ (f = "length" /\ e = "m.range().len()")%string.
+Proof.
+  intros f e H. vm_compute in H.
+  repeat (destruct H as [H|H]; [inversion H; subst; try (left; split; reflexivity); try (right; split; reflexivity)|]);
+  try contradiction.
+Qed.
+
+(* every MetaValue variant has its own tag and fills the union member named after it *)
+Lemma meta_arms_lemma : forall v tag mem payload,
+  In (v, tag, mem, payload) meta_arms ->
+  In (v, tag, payload) expected_meta /\ member_of_tag tag = Some mem.
+Proof.
+  intros v tag mem payload H. vm_compute in H.
+  repeat (destruct H as [H|H]; [inversion H; subst; split; [vm_compute; tauto|reflexivity]|]).
+  contradiction.
+Qed.
